@@ -1455,6 +1455,39 @@ def facet_edge_lengths(c):
     return (ufl.MinFacetEdgeLength(c.mesh) + 2 * ufl.MaxFacetEdgeLength(c.mesh)) * v * ds
 
 
+ZOO = [("triangle", "CR", 1, None, False), ("tetrahedron", "CR", 1, None, False), ("triangle", "iso", 1, None, False), ("triangle", "iso", 2, None, False),
+       ("quadrilateral", "iso", 1, None, False), ("interval", "iso", 2, None, False), ("tetrahedron", "iso", 1, None, False), ("quadrilateral", "DPC", 2, None, False),
+       ("quadrilateral", "serendipity", 2, None, False), ("hexahedron", "serendipity", 1, None, False), ("quadrilateral", "RTCF", 1, None, False),
+       ("quadrilateral", "RTCE", 1, None, False), ("hexahedron", "NCF", 1, None, False), ("hexahedron", "NCE", 1, None, False), ("triangle", "N2curl", 1, None, False),
+       ("tetrahedron", "N2curl", 1, None, False), ("triangle", "HHJ", 1, None, False), ("triangle", "Regge", 1, None, False), ("tetrahedron", "Regge", 0, None, False),
+       ("triangle", "BDM", 2, None, False), ("triangle", "bubble", 3, None, False), ("quadrilateral", "bubble", 2, None, False), ("interval", "bubble", 2, None, False),
+       ("triangle", "Lagrange", 3, "legendre", True), ("triangle", "Lagrange", 2, "gl_centroid", True), ("triangle", "Lagrange", 2, None, True),
+       ("quadrilateral", "Lagrange", 3, "equispaced", False), ("interval", "Lagrange", 4, "gll_isaac", False), ("hexahedron", "DPC", 1, None, False)]
+
+
+@builder
+def family_zoo(c, family="CR", degree=1, variant=None, discontinuous=False, itype="cell"):
+    """Less common element families / variants: mass-like and (for scalar elements) stiffness-like forms with a coefficient of the
+    same space; on facets the exterior mass and the interior jump."""
+    kw = {}
+    if variant:
+        kw["lagrange_variant"] = getattr(basix.LagrangeVariant, variant)
+    if discontinuous:
+        kw["discontinuous"] = True
+    el = basix.ufl.element(family, c.cell, degree, **kw)
+    V = c.space(el)
+    u, v = TrialFunction(V), TestFunction(V)
+    f = Coefficient(V)
+    if itype == "cell":
+        a = (1.0 + inner(f, f)) * inner(u, v) * dx
+        if el.reference_value_shape == ():
+            a = a + inner(grad(u), grad(v)) * dx
+        return a
+    if itype == "exterior_facet":
+        return (1.0 + inner(f, f)) * inner(u, v) * ds
+    return inner(jump(u), jump(v)) * dS + inner(f("+"), f("-")) * inner(u("+"), v("-")) * dS
+
+
 @builder
 def geom_all(c, itype="interior_facet", side="-", which=None):
     """Every geometric quantity ffcx tabulates, under the given restriction (interior facets) or unrestricted: cell/facet edge
@@ -1475,6 +1508,9 @@ def geom_all(c, itype="interior_facet", side="-", which=None):
         Q.update({"vol": CellVolume(m), "circ": Circumradius(m), "farea": FacetArea(m)})
     if c.tdim >= 2:
         Q["FJ"] = ufl.classes.FacetJacobian(m)[c.gdim - 1, 0]
+    if itype == "cell":  # facet quantities do not exist in cell integrals
+        for nm in ("n", "FJ", "farea", "minfacetedge", "maxfacetedge"):
+            Q.pop(nm, None)
     names = sorted(Q) if which is None else list(which)
     e = 0
     for k, nm in enumerate(names):
